@@ -266,6 +266,18 @@ def subst_locals(fn: ast.AST, e: ast.AST, depth: int = 3, allow_calls: bool = Fa
                 if isinstance(x, ast.Name):
                     defs.setdefault(x.id, []).append(None)
 
+    # a container that is filled in after it was created is not its initial display: `data = {}; data[k] = v`
+    _MUTATORS = ('append', 'extend', 'insert', 'update', 'setdefault', 'pop', 'popitem', 'add', 'remove', 'discard',
+                 'clear', 'sort', 'reverse')
+    mutated: set[str] = set()
+    for n in ast.walk(fn):
+        if isinstance(n, (ast.Subscript, ast.Attribute)) and isinstance(n.ctx, (ast.Store, ast.Del)) \
+                and isinstance(n.value, ast.Name):
+            mutated.add(n.value.id)
+        elif isinstance(n, ast.Call) and isinstance(n.func, ast.Attribute) and n.func.attr in _MUTATORS \
+                and isinstance(n.func.value, ast.Name):
+            mutated.add(n.func.value.id)
+
     class T(ast.NodeTransformer):
         def visit_Name(self, node: ast.Name):
             if not isinstance(node.ctx, ast.Load) or node.id in params:
@@ -274,6 +286,8 @@ def subst_locals(fn: ast.AST, e: ast.AST, depth: int = 3, allow_calls: bool = Fa
             if len(ds) != 1 or ds[0] is None:
                 return node
             val = ds[0].value
+            if node.id in mutated and isinstance(val, (ast.Dict, ast.List, ast.Set, ast.ListComp, ast.DictComp, ast.SetComp)):
+                return node
             banned = (ast.Await, ast.IfExp, ast.NamedExpr) if allow_calls else (ast.Call, ast.Await, ast.IfExp, ast.NamedExpr)
             if any(isinstance(x, banned) for x in ast.walk(val)):
                 return node
